@@ -18,7 +18,7 @@ import sys
 import time
 
 ROOT = "/verif"
-REPO = "/repo"
+REPO = os.environ.get("VERIF_REPO", "/repo")
 COQ = os.path.join(ROOT, "coq")
 BUILD = os.path.join(ROOT, "build")
 HOOKS = os.path.join(ROOT, "hooks")
